@@ -1,6 +1,7 @@
 package c11
 
 import (
+	"errors"
 	"fmt"
 	"math"
 	"math/rand"
@@ -25,7 +26,7 @@ func init() { core.Register(&area{}) }
 func (a *area) Name() string { return "query" }
 
 // number of dedicated deterministic cases (witnesses of the recorded findings and fixed shapes)
-const nFixed = 22
+const nFixed = 23
 
 func (a *area) Run(c *core.Ctx) error {
 	if c.Args["lindb-log"] != "" {
@@ -281,6 +282,33 @@ func (r *run) flushWindow(fam int, during func()) {
 	}
 	r.c.Op(fmt.Sprintf("flushend %d", fam), out)
 	r.c.Branch("op/flush-with-window")
+}
+
+// flushFail runs dataFamily.Flush with the creation of the metric data flusher failing
+// (tsdb.VerifC11FailFlush): the mutable memory database has become the immutable one, nothing is
+// written, Flush returns the error. From then on the family is in the state of a flush in progress
+// (new mutable memory database on the next write, the immutable one, the files): `during` runs in
+// that state — every accepted point must stay queryable. Later Flush calls of the family are refused
+// by its skip guard; the window ends with the engine's close (dataFamily.Close flushes the immutable
+// memory database again, then the mutable one) + reopen.
+func (r *run) flushFail(fam int, during func()) {
+	if r.sh.fam(fam).mem == nil {
+		r.flush(fam)
+		return
+	}
+	restore := tsdb.VerifC11FailFlush()
+	err := r.e.flush(fam)
+	restore()
+	if !errors.Is(err, tsdb.ErrVerifC11InjectedFlushFailure) {
+		r.c.Fail("flush-failure-not-injected", fmt.Sprintf("Flush with a failing flusher returned %v", err))
+		return
+	}
+	r.c.Op(fmt.Sprintf("flushbegin %d", fam), "ok")
+	r.sh.flush(fam)
+	during()
+	r.c.Op(fmt.Sprintf("flushend %d", fam), "ok")
+	r.c.Branch("op/flush-failed")
+	r.reopen()
 }
 
 func (r *run) compact(fam int) {
@@ -650,7 +678,13 @@ func runRandom(c *core.Ctx, idx int, boundary bool) {
 			if rng.Intn(5) < 2 {
 				// a flush in progress: rows and queries between the memory database switch and the commit
 				nw, nq := 1+rng.Intn(3), 1+rng.Intn(2)
-				r.flushWindow(fam, func() {
+				// one in four of them: the flush FAILS after the switch; the window stays open until
+				// the engine is closed and reopened
+				window := r.flushWindow
+				if rng.Intn(4) == 0 {
+					window = r.flushFail
+				}
+				window(fam, func() {
 					for k := 0; k < nw; k++ {
 						wf := fam
 						if rng.Intn(4) == 0 {
